@@ -219,7 +219,12 @@ def handleSysFor (prop : String) : Handler := fun i o => do
              note := "the run did not end: " ++ why, tags := ["crash"], region := none }
   let pre ← (← asList (← jget i "pre")).mapM manifestOfJson
   let runs ← (← asList (← jget i "runs")).mapM runOfJson
-  let c0 : Cluster := pre.foldl (fun c m => c.putPre m) {}
+  let preInv ← match jopt i "preInv" with
+    | some a => if a.isNull then pure [] else idsOfJson a
+    | none => pure []
+  let c00 : Cluster := pre.foldl (fun c m => c.putPre m) {}
+  -- an inventory object that exists before the first run (it takes the next UID, like every stored object)
+  let c0 : Cluster := if preInv.isEmpty then c00 else (invCreateEffect preInv c00).1
   -- the model replays the history.  The stored inventory is a SET (the library keeps it as the key set of a ConfigMap's data and
   -- reads it back in Go map-iteration order, which is unspecified); the model keeps it as a list.  `replay ks` presents the
   -- stored list to run k rotated/reversed by `ks[k]` — another representative of the same stored set.
